@@ -64,18 +64,19 @@ class ConfigId:
         name = config[(0x620, 0x03)].decode() if (0x620, 0x03) in config else None
         try:
             customer = int.from_bytes(config[0x620, 0x01], "big")
+            project = 0000
             device = int.from_bytes(
                 config.get((0x620, 0x02), bytes([0x00, 0x00])), "big"
             )
         except KeyError:
             # Does not correspond to Baltech Naming Scheme
-            customer = device = None
+            customer = device = project = None
             if not name:
                 raise MissingDeviceSettingsNameError(
                     "name is required if not corresponding to baltech naming "
                     "convention"
                 )
-        return cls(customer, 0000, device, version, name)
+        return cls(customer, project, device, version, name)
 
     @classmethod
     def create_from_str(cls, configname: str) -> "ConfigId":
